@@ -205,6 +205,31 @@ def _impl(tier, seed, search):
             ok, r = L.noraise('SE3*force', lambda: X * cls(x), dict(T=T, x=x, cls=cls.__name__), f'SE3 * {cls.__name__}')
             if ok:
                 L.check('SE3*force:class', type(r) is cls, dict(cls=cls.__name__), 'class not preserved'); L.close('SE3*force', r.A, Ad.T @ x, TOL, sx, dict(T=T, x=x), what='SE3 * force vector is not Ad(T)ᵀ x')
+    # round 11: the adjoint of a rigid motion given as a *small* Twist3 (Twist3.Ad, and the Twist3 left operand of a spatial vector) is Ad(exp(S)),
+    # reference: SciPy's matrix exponential of the 4x4 se(3) matrix and the block formula; a buffer handed to a constructor is not kept
+    import scipy.linalg as _sl
+    for s_ in (np.array([3e-4, -2e-4, 1e-4, 2e-4, -3e-4, 1e-4]), np.array([5e-4, 1e-4, -4e-4, -1e-4, 2e-4, 6e-4]), np.array([0.3, -0.2, 0.1, 0.2, -0.3, 0.1]),
+               np.array([2e-6, 1e-6, -3e-6, 1e-6, -2e-6, 2e-6])):
+        se_ = np.zeros((4, 4)); se_[:3, :3] = sk(s_[3:]); se_[:3, 3] = s_[:3]
+        Te_ = _sl.expm(se_); Re_, te_ = Te_[:3, :3], Te_[:3, 3]
+        Ade_ = np.block([[Re_, sk(te_) @ Re_], [np.zeros((3, 3)), Re_]])
+        inp_ = dict(S=s_)
+        ok, r = L.noraise('Twist3.Ad(small)', lambda: Twist3(s_).Ad(), inp_, 'Twist3.Ad()', sig='Twist3.Ad:raises')
+        if ok: L.close('Twist3.Ad(small)', np.asarray(r, float), Ade_, TOL, 1.0, inp_, what='Twist3.Ad() is not the adjoint of exp(S)', sig='Twist3.Ad:value')
+        x_ = np.arange(1.0, 7.0)
+        for cls_ in (SpatialVelocity, SpatialForce):
+            ok, r = L.noraise('Twist3*vector', lambda: cls_(x_).__rmul__(Twist3(s_)), inp_, f'Twist3 * {cls_.__name__}', sig='Twist3*vector:raises')
+            if ok and r is not NotImplemented:
+                L.close('Twist3*vector', r.A, (Ade_ if cls_ is SpatialVelocity else Ade_.T) @ x_, TOL, 6.0, dict(inp_, cls=cls_.__name__), what='Twist3 * spatial vector is not Ad(exp(S)) x (motion) / its transpose (force)', sig='Twist3*vector:value')
+    for cls_ in CL:
+        buf_ = np.array([1.0, -2.0, 3.0, 0.5, 0.25, -4.0]); keep_ = buf_.copy()
+        ok, A_ = L.noraise('ctor(buffer)', lambda: cls_(buf_), dict(cls=cls_.__name__), 'constructor from a float array', sig='ctor-buffer:raises')
+        if ok:
+            buf_[:] = 7.0
+            ok2, r = L.noraise('ctor(buffer) +', lambda: (A_.A.copy(), (A_ + cls_(keep_)).A), dict(cls=cls_.__name__), 'use after the caller reuses its buffer', sig='ctor-buffer:raises')
+            if ok2:
+                L.close('ctor(buffer)', r[0], keep_, 1e-15, 1.0, dict(cls=cls_.__name__, given=keep_), what='a spatial vector changes when the array it was built from is overwritten', sig='ctor-buffer')
+                L.close('ctor(buffer) +', r[1], 2 * keep_, 1e-15, 1.0, dict(cls=cls_.__name__, given=keep_), sig='ctor-buffer')
     return L.result()
 
 if __name__ == '__main__':
